@@ -161,6 +161,35 @@ def numeric(ctx, rep):
                 r.check("R14.3", ok, key, f.where,
                         "the digits %s (radix %d) are converted to %r; the number written is %d" % (key, radix, shown, true),
                         {"digits": len(digs), "radix": radix}, detail={"digits": digs[:12], "value": shown if isinstance(shown, int) else None})
+    # the whole function, run from its source on a character stream (sa/classeval.py): digits with and without leading zeros
+    # of every significant length, a terminator that is `;`, another character, or the end of input
+    from ..classeval import ClassEval
+    cls_ = ctx.repo.cls(REL, "HTMLTokenizer")
+    n_run = 0
+    try:
+        for radix, alphabet, is_hex in ((10, "19", False), (16, "1fA", True)):
+            for nsig in (1, 2, 4, 6, 7, 8, 9, 12):
+                for lead in (0, 1, 8, 40):
+                    for d in alphabet:
+                        for tail in (";", "z", ""):
+                            digs = "0" * lead + d * nsig
+                            evl = ClassEval(ce, mod, cls_, {})
+                            evl.stream = list(digs + tail + "rest")  if tail else list(digs)
+                            got = evl.call("consumeNumberEntity", [is_hex])
+                            n = int(d * nsig, radix)
+                            exp = rep[n] if n in rep else ("\ufffd" if (0xD800 <= n <= 0xDFFF or n > 0x10FFFF) else chr(n))
+                            left = "".join(evl.stream)
+                            exp_left = ("rest" if tail == ";" else (tail + "rest" if tail else ""))
+                            n_run += 1
+                            if got != exp or left != exp_left:
+                                r.bad("R14.3", "evaluated[radix=%d,%s%s]" % (radix, digs if len(digs) < 16 else "%s..x%d" % (digs[:4], len(digs)), tail),
+                                      f.where, "consumeNumberEntity on `%s%s`: returns %r and leaves %r unread; the standard gives %r and leaves %r "
+                                      "(leading zeros are not significant, the number has %d significant digits)" % (
+                                          digs if len(digs) < 24 else digs[:6] + "...", tail, got, left[:8], exp, exp_left[:8], nsig),
+                                      {"digits": digs[:16], "radix": radix})
+        r.ok("R14.3", "evaluated::numeric-references", f.where, detail={"streams_run": n_run})
+    except AnalysisError as e:
+        r.note("C14: consumeNumberEntity not evaluable as a whole (%s); its parts are decided separately" % str(e)[:100])
     r.check("R14.3", hexd == frozenset("0123456789abcdefABCDEF") and digits == frozenset("0123456789"), "digit-sets",
             "constants.py", "digits / hexDigits are not the ASCII (hex) digits")
     # semicolon handling: consumed if present, otherwise given back
